@@ -8,15 +8,14 @@ Import ListNotations.
 Local Open Scope N_scope.
 
 Section ASM. Variable cfg : config.
-Hypothesis R : rt_ok cfg.
+Hypothesis Hasc : tbl_ascii_ok cfg = true.
+Hypothesis Hksp : key_special_ascii cfg = true.
 Hypothesis Hscan : scan_lower_ne cfg = true.
 Hypothesis Hsa : scan_ascii_ok cfg = true.
 Hypothesis Hfix : tbl_img_fixed cfg = true.
 Hypothesis Hsc : tbl_img_scalar cfg = true.
 Hypothesis Hnc : tbl_no_comma cfg = true.
 Hypothesis Hck : valid_key cfg s_checksum = true.
-Let Hasc := rt_asc cfg R.
-Let Hksp := rt_ksp cfg R.
 
 (* ---------------- the string shape is stable ---------------- *)
 Lemma G_finish_stable : finish_stable (string_shape cfg).
@@ -86,10 +85,10 @@ Proof.
     pose proof (q_get_insert_same cfg Hasc Hksp _ _ _ _ HQq Ei) as Eg2.
     unfold Inv. cbn [p_name p_quals with_quals]. split; [exact Hne|]. split; [exact HQ2|]. split.
     { exact (q_insert_vals cfg Hasc Hksp (fun v => v <> []) q1 s_checksum txt q2 HQq HVq F3 Ei). }
-    split. { intros k w. apply (quals_retrievable cfg R). exact HQ2. }
-    intros w Hw. rewrite Eg2 in Hw. injection Hw as <-. exact (checksum_text_canonical cfg R Hscan Hsa Hfix Hsc Hnc v m txt Hvv Ep Et).
+    split. { intros k w. apply (quals_retrievable cfg Hasc Hksp). exact HQ2. }
+    intros w Hw. rewrite Eg2 in Hw. injection Hw as <-. eapply (checksum_text_canonical cfg); eassumption.
   - intros [= <- <-]. unfold Inv. cbn [p_name p_quals with_quals]. split; [exact Hne|]. split; [exact HQq|]. split; [exact HVq|].
-    split. { intros k w. apply (quals_retrievable cfg R). exact HQq. }
+    split. { intros k w. apply (quals_retrievable cfg Hasc Hksp). exact HQq. }
     intros w Hw. fold q1 in Hw. rewrite Eg in Hw. discriminate.
 Qed.
 Theorem C04_parse s t p : hook_sane -> parse cfg sh s = Ok (t, p) -> Inv p.
@@ -100,7 +99,7 @@ Qed.
 
 (* ---------------- C10: re-building is the identity, for every stable hook ---------------- *)
 Theorem C10_build t0 p0 t p : finish_stable sh -> fields_valid cfg p0 -> build cfg sh t0 p0 = Ok (t, p) -> build cfg sh t p = Ok (t, p).
-Proof. intros FS FV H. exact (proj2 (proj2 (proj2 (proj2 (build_stable cfg R Hsa Hfix Hsc Hnc Hck sh t0 p0 t p FS FV H))))). Qed.
+Proof. intros FS FV H. exact (proj2 (proj2 (proj2 (proj2 (build_stable cfg Hasc Hksp Hsa Hfix Hsc Hnc Hck sh t0 p0 t p FS FV H))))). Qed.
 Theorem C10_parse s t p : finish_stable sh -> parse cfg sh s = Ok (t, p) -> build cfg sh t p = Ok (t, p).
 Proof. intros FS H. destruct (parse_via_build s t p H) as (t0 & p0 & FV & _ & Hb). exact (C10_build t0 p0 t p FS FV Hb). Qed.
 End SH.
@@ -134,7 +133,7 @@ Qed.
 Lemma pt_name_inj t1 t2 : pt_name t1 = pt_name t2 -> t1 = t2.
 Proof. destruct t1, t2; intros H; try reflexivity; discriminate H. Qed.
 Lemma pt_name_valid t : valid_type cfg (pt_name t) = true. Proof. destruct t; reflexivity. Qed.
-Theorem format_inj_P t1 p1 t2 p2 : keys_valid cfg (p_quals p1) -> keys_valid cfg (p_quals p2) ->
+Theorem format_inj_P (R : rt_ok cfg) t1 p1 t2 p2 : keys_valid cfg (p_quals p1) -> keys_valid cfg (p_quals p2) ->
   format cfg (ptype_shape cfg) t1 p1 = format cfg (ptype_shape cfg) t2 p2 -> t1 = t2 /\ p1 = p2.
 Proof.
   intros K1 K2 H.
